@@ -94,7 +94,8 @@ impl<'a> G<'a> {
             let wordlike = matches!(k, 0 | 1 | 2 | 3 | 4 | 6 | 7 | 9);
             if i > 0 { if prev_wordlike && wordlike { self.plain_ws(); } else if self.u.coin(1, 2) { self.plain_ws(); } }
             match k {
-                0 | 1 => { let s = self.pick(IDENTS); self.p(s); }
+                0 => { let s = self.pick(IDENTS); self.p(s); }
+                1 => { if self.u.coin(1, 3) { let s = self.pick(&["$char10.", "best12.2", "date9.", "$20.", "8.", "$upcase8.", "comma12."]); self.p(s); } else { let s = self.pick(IDENTS); self.p(s); } }
                 2 => { let s = self.pick(OPEN_KW); self.p(s); }
                 3 => self.number(),
                 4 => self.str_lit(),
@@ -118,7 +119,7 @@ impl<'a> G<'a> {
         match self.u.below(8) {
             0 => self.p("'abc'"), 1 => self.p("'it''s'"), 2 => self.p("'a;b,c)'"), 3 => self.p("\"plain\""), 4 => self.p("\"say \"\"hi\"\"\""),
             5 => { self.p("\"x"); self.mvar(true); self.p(" y\""); self.feat("strexpr-mvar"); }
-            6 => { self.p("\"p "); self.user_call(1); self.p(" q\""); self.feat("strexpr-call"); }
+            6 => { self.p("\"p "); if self.u.coin(1, 2) { self.user_call(1); } else { self.feat("strexpr-builtin"); self.d_inc(); self.builtin_call(1); self.depth -= 1; } self.p(" q\""); self.feat("strexpr-call"); }
             _ => { let s = self.pick(&["'01jan2020'd", "'12:00't", "'1jan20:0:0'dt", "'my var'n", "'4a4B'x", "\"41,42\"X", "'1010'b", "\"&v\"d"]); self.p(s); }
         }
     }
@@ -185,11 +186,11 @@ impl<'a> G<'a> {
             1 => { self.feat("sysevalf"); self.p("%sysevalf"); self.ows(); self.del_mark("(", "LPAREN", "MissingExpectedLParen", false); self.ows(); self.eval_expr(true, true); if self.u.coin(1, 3) { self.mark(",", MK::Delim("COMMA", false)); self.ows(); self.p("boolean"); } self.mark(")", MK::Delim("RPAREN", false)); }
             2 => { self.feat("scan"); let nm = self.pick(&["%scan", "%qscan", "%SCAN", "%kscan"]); self.p(nm); self.ows(); self.del_mark("(", "LPAREN", "MissingExpectedLParen", false); self.ows(); self.simple_value(); let close_anchor_needed = self.out.len(); let _ = close_anchor_needed; let di = self.dels.len(); self.del_mark(",", "COMMA", "MissingExpectedComma", false); self.ows(); self.eval_expr(false, true); if self.u.coin(1, 2) { self.mark(",", MK::Delim("COMMA", false)); self.ows(); self.p("|"); self.mark("(", MK::Masked); self.p(" "); self.mark(")", MK::Masked); self.dels.remove(di); } else { let a = self.anchor(); self.dels[di].at_mark = Some(a); } self.mark(")", MK::Delim("RPAREN", false)); }
             3 => { self.feat("substr"); let nm = self.pick(&["%substr", "%qsubstr", "%ksubstr"]); self.p(nm); self.ows(); self.del_mark("(", "LPAREN", "MissingExpectedLParen", false); self.ows(); self.simple_value(); let di = self.dels.len(); self.del_mark(",", "COMMA", "MissingExpectedComma", false); self.ows(); self.eval_expr(false, true); if self.u.coin(1, 2) { self.mark(",", MK::Delim("COMMA", false)); self.ows(); self.eval_expr(false, true); self.dels.remove(di); } else { let a = self.anchor(); self.dels[di].at_mark = Some(a); } self.mark(")", MK::Delim("RPAREN", false)); }
-            4 => { self.feat("one-arg-masking"); let nm = self.pick(&["%upcase", "%length", "%index", "%quote", "%bquote", "%nrbquote", "%superq", "%unquote", "%symexist", "%sysget", "%qupcase", "%qlowcase"]); self.p(nm); self.ows(); self.del_mark("(", "LPAREN", "MissingExpectedLParen", false); self.ows(); self.simple_value(); if self.u.coin(1, 2) { self.mark(",", MK::Masked); self.p("t"); } self.mark(")", MK::Delim("RPAREN", false)); }
-            5 => { self.feat("multi-arg-builtin"); let nm = self.pick(&["%cmpres", "%left", "%trim", "%lowcase", "%qtrim", "%datatyp"]); self.p(nm); self.ows(); self.del_mark("(", "LPAREN", "MissingExpectedLParen", false); self.ows(); self.simple_value(); self.mark(")", MK::Delim("RPAREN", false)); }
+            4 => { self.feat("one-arg-masking"); let nm = self.pick(&["%upcase", "%length", "%index", "%quote", "%bquote", "%nrbquote", "%superq", "%unquote", "%symexist", "%sysget", "%qupcase", "%qlowcase", "%nrquote", "%kupcase", "%klength", "%kindex", "%qkupcase", "%qklowcase", "%sysmexecname", "%sysprod", "%symglobl", "%symlocal", "%sysmacexec", "%sysmacexist", "%UPCASE", "%Length"]); self.p(nm); self.ows(); self.del_mark("(", "LPAREN", "MissingExpectedLParen", false); self.ows(); self.simple_value(); if self.u.coin(1, 2) { self.mark(",", MK::Masked); self.p("t"); } self.mark(")", MK::Delim("RPAREN", false)); }
+            5 => { self.feat("multi-arg-builtin"); let nm = self.pick(&["%cmpres", "%left", "%trim", "%lowcase", "%qtrim", "%datatyp", "%qcmpres", "%kcmpres", "%qkcmpres", "%qleft", "%kleft", "%qkleft", "%ktrim", "%qktrim", "%klowcase", "%Trim"]); self.p(nm); self.ows(); self.del_mark("(", "LPAREN", "MissingExpectedLParen", false); self.ows(); self.simple_value(); self.mark(")", MK::Delim("RPAREN", false)); }
             6 => { self.feat("sysfunc"); let nm = self.pick(&["%sysfunc", "%qsysfunc", "%SysFunc"]); self.p(nm); self.ows(); self.del_mark("(", "LPAREN", "MissingExpectedLParen", false); self.ows(); let f = self.pick(&["cats", "putn", "max", "today", "substr"]); self.p(f); self.ows(); self.del_mark("(", "LPAREN", "MissingExpectedLParen", false); self.ows(); let n = self.u.below(3); for i in 0..n { if i > 0 { self.mark(",", MK::Delim("COMMA", false)); self.ows(); } self.eval_expr(true, true); } self.mark(")", MK::Delim("RPAREN", false)); self.ows(); if self.u.coin(1, 3) { self.mark(",", MK::Delim("COMMA", false)); self.ows(); self.p("best12."); } self.mark(")", MK::Delim("RPAREN", false)); }
             7 | 8 => { self.str_call(); }
-            9 => { self.feat("verify-named"); self.p("%verify"); self.ows(); self.del_mark("(", "LPAREN", "MissingExpectedLParen", false); self.ows(); self.simple_value(); self.mark(",", MK::Delim("COMMA", false)); self.ows(); self.simple_value(); self.mark(")", MK::Delim("RPAREN", false)); }
+            9 => { self.feat("verify-named"); let nm = self.pick(&["%verify", "%kverify", "%verify", "%VERIFY"]); self.p(nm); self.ows(); self.del_mark("(", "LPAREN", "MissingExpectedLParen", false); self.ows(); self.simple_value(); self.mark(",", MK::Delim("COMMA", false)); self.ows(); self.simple_value(); self.mark(")", MK::Delim("RPAREN", false)); }
             10 => { self.p("%sysmexecdepth "); }
             _ => { self.user_call(2); if !self.out.ends_with(')') { self.p(" w"); } }
         }
@@ -286,7 +287,7 @@ impl<'a> G<'a> {
     fn if_stmt(&mut self) {
         self.feat("if"); self.p("%if"); self.rws(); self.eval_expr(false, false); self.rgap_after_expr(); self.p("%then"); self.rws();
         if self.u.coin(1, 2) { self.do_block(); } else { self.simple_macro_stmt(); }
-        if self.u.coin(1, 3) { self.feat("else"); self.plain_ws(); self.p("%else"); self.rws(); if self.u.coin(1, 2) { self.do_block(); } else { self.simple_macro_stmt(); } }
+        if self.u.coin(1, 3) { self.feat("else"); self.plain_ws(); self.p("%else"); self.rws(); match self.u.below(5) { 0 | 1 => self.do_block(), 2 if self.depth < 4 => { self.feat("else-if"); self.d_inc(); self.if_stmt(); self.depth -= 1; } _ => self.simple_macro_stmt() } }
     }
     fn simple_macro_stmt(&mut self) { match self.u.below(3) { 0 => self.let_stmt(), 1 => self.put_stmt(), _ => self.open_stmt() } }
     fn do_block(&mut self) {
@@ -311,7 +312,7 @@ impl<'a> G<'a> {
     fn call_stmt(&mut self) { self.user_call(0); if !self.out.ends_with(')') { /* argless */ } self.ows_no_paren(); self.p(";"); }
     fn ows_no_paren(&mut self) { if self.u.coin(1, 3) { self.p(" "); } }
     fn local_global(&mut self) { self.feat("local-global"); let k = self.pick(&["%local", "%global", "%LOCAL"]); self.p(k); self.rws(); if self.u.coin(1, 4) { self.p("/ readonly "); self.name_expr(); self.ows(); self.p("="); self.ows(); self.text_expr(); } else { let n = 1 + self.u.below(3); for i in 0..n { if i > 0 { self.p(" "); } self.name_expr(); } } self.mark(";", MK::Delim("SEMI", false)); }
-    fn goto_label(&mut self) { self.feat("goto-label"); if self.u.coin(1, 2) { self.p("%goto"); self.rws(); let l = self.pick(&["done", "lbl1", "é_l"]); self.p(l); self.ows(); self.p(";"); } else { if !self.out.is_empty() && !self.out.ends_with([';', '\n', ' ']) { self.p(" "); } let l = self.pick(&["%done", "%lbl1", "%next_step"]); self.p(l); self.ows(); self.p(":"); self.plain_ws(); self.simple_macro_stmt(); } }
+    fn goto_label(&mut self) { self.feat("goto-label"); if self.u.coin(1, 2) { self.p("%goto"); self.rws(); if self.u.coin(1, 4) { self.mvar(false); } else { let l = self.pick(&["done", "lbl1", "é_l"]); self.p(l); } self.ows(); self.p(";"); } else { if !self.out.is_empty() && !self.out.ends_with([';', '\n', ' ']) { self.p(" "); } let l = self.pick(&["%done", "%lbl1", "%next_step"]); self.p(l); self.ows(); self.p(":"); self.plain_ws(); self.simple_macro_stmt(); } }
     fn misc_stat(&mut self) {
         self.feat("misc-stat");
         match self.u.below(8) {
@@ -320,7 +321,18 @@ impl<'a> G<'a> {
             2 => { self.p("%sysexec"); self.rws(); self.p("ls -l /tmp"); self.p(";"); }
             3 => { self.p("%syscall"); self.rws(); self.p("ranuni"); self.ows(); self.del_mark("(", "LPAREN", "MissingExpectedLParen", false); self.mvar(true); self.mark(",", MK::Delim("COMMA", false)); self.ows(); self.mvar(true); self.mark(")", MK::Delim("RPAREN", false)); self.ows(); self.del_mark(";", "SEMI", "MissingExpectedSemiOrEOF", false); }
             4 => { self.p("%include"); self.rws(); self.p("'file.sas'"); self.ows(); self.p(";"); }
-            5 => { self.p("%abort"); if self.u.coin(1, 2) { self.p(" cancel"); } self.ows(); self.p(";"); }
+            5 => { match self.u.below(10) {
+                    0 => { self.p("%abort"); if self.u.coin(1, 2) { let o = self.pick(&[" cancel", " abend 4", " return"]); self.p(o); } self.ows(); self.p(";"); }
+                    1 => { self.p("%syslput"); self.rws(); self.name_expr(); self.p("="); self.mvar(true); self.p(";"); }
+                    2 => { let k = self.pick(&["%include", "%inc", "%INCLUDE"]); self.p(k); self.rws(); let f = self.pick(&["'f.sas'", "\"f&v..sas\"", "fref", "fref(member)"]); self.p(f); if self.u.coin(1, 3) { self.p(" / source2"); } self.ows(); self.p(";"); }
+                    3 => { self.p("%window w color=red #1 @2 \"t\" "); self.mvar(true); self.p(";"); }
+                    4 => { self.p("%display w"); self.ows(); self.p(";"); }
+                    5 => { self.p("%input"); self.rws(); self.name_expr(); self.p(" b"); self.ows(); self.p(";"); }
+                    6 => { self.p("%sysmacdelete"); self.rws(); let m = self.pick(MNAMES); self.p(m); self.ows(); self.p("/"); if self.u.coin(1, 2) { self.p(" nowarn"); } self.ows(); self.p(";"); /* the lexer documents the '/' of %sysmacdelete as mandatory (expect_macro_name_then_opts) */ }
+                    7 => { let k = self.pick(&["%sysmstoreclear", "%list", "%run"]); self.p(k); self.ows(); self.p(";"); }
+                    8 => { self.p("%sysexec"); self.rws(); self.p("echo "); if self.u.coin(1, 2) { self.str_call(); } self.p(" done"); self.p(";"); }
+                    _ => { self.p("%abort"); self.ows(); self.p(";"); }
+                } }
             6 => { self.p("%copy"); self.rws(); let nm = self.pick(MNAMES); self.p(nm); self.ows(); self.del_mark("/", "FSLASH", "MissingExpectedFSlash", false); self.ows(); if self.u.coin(2, 3) { let o = self.pick(&["source", "SOURCE", "source outfile='f.sas'", "lib=work source"]); self.p(o); self.ows(); } self.p(";"); }
             _ => { self.p("%sysrput"); self.rws(); self.name_expr(); self.p("="); self.mvar(true); self.p(";"); }
         }
